@@ -853,7 +853,7 @@ def static_oracle(files: dict[str, str]) -> list[dict]:
 
 
 IMPORT_SCRIPT = r"""
-import ast, importlib, json, os, sys, traceback, typing, unicodedata, warnings
+import ast, importlib, json, os, sys, traceback, types, typing, unicodedata, warnings
 warnings.simplefilter("ignore")
 root = sys.argv[1]
 sys.path.insert(0, root)
@@ -942,7 +942,14 @@ for pkg, modules in jobs.items():
                 obj = ns.get(cls.name)
                 if isinstance(obj, type) and getattr(obj, "__module__", None) == mod.__name__:
                     try:
-                        typing.get_type_hints(obj, include_extras=True)
+                        if typing.is_typeddict(obj):
+                            # a TypedDict has no bases at run time: its __annotations__ hold the inherited members too,
+                            # and get_type_hints would evaluate those in THIS module. Each module answers for what it
+                            # wrote: the class's own members, in this module's namespace
+                            held = types.SimpleNamespace(__annotations__={k: v for k, v in obj.__annotations__.items() if k in own})
+                            typing.get_type_hints(held, globalns=dict(ns), include_extras=True)
+                        else:
+                            typing.get_type_hints(obj, include_extras=True)
                         if getattr(obj, "__pydantic_complete__", True) is False and hasattr(obj, "model_rebuild"):
                             obj.model_rebuild(raise_errors=True)
                     except Exception as e:
